@@ -397,10 +397,14 @@ fn unwrap_avail<T>(x: Option<T>) -> T {
 pub fn memchr_op(op: &str, be: &str, ns: &[u8], hs: &[u8]) -> String {
     match be {
         "swar" => arity!(memchr::arch::all::memchr, op, ns, hs, new, ident),
-        #[cfg(target_arch = "x86_64")]
+        #[cfg(all(target_arch = "x86_64", not(any(memchr_emu = "neon", memchr_emu = "simd128"))))]
         "sse2" => arity!(memchr::arch::x86_64::sse2::memchr, op, ns, hs, new, unwrap_avail),
-        #[cfg(target_arch = "x86_64")]
+        #[cfg(all(target_arch = "x86_64", not(any(memchr_emu = "neon", memchr_emu = "simd128"))))]
         "avx2" => arity!(memchr::arch::x86_64::avx2::memchr, op, ns, hs, new, unwrap_avail),
+        #[cfg(memchr_emu = "neon")]
+        "neon" => arity!(memchr::arch::aarch64::neon::memchr, op, ns, hs, new, unwrap_avail),
+        #[cfg(memchr_emu = "simd128")]
+        "simd128" => arity!(memchr::arch::wasm32::simd128::memchr, op, ns, hs, new, unwrap_avail),
         "top" => match (op, ns.len()) {
             ("find", 1) => opt(memchr::memchr(ns[0], hs)),
             ("find", 2) => opt(memchr::memchr2(ns[0], ns[1], hs)),
@@ -466,10 +470,14 @@ macro_rules! iter_arity {
 pub fn iter_op(be: &str, ns: &[u8], hs: &[u8], ops: &str) -> String {
     match be {
         "swar" => iter_arity!(memchr::arch::all::memchr, ns, hs, ops, new, ident),
-        #[cfg(target_arch = "x86_64")]
+        #[cfg(all(target_arch = "x86_64", not(any(memchr_emu = "neon", memchr_emu = "simd128"))))]
         "sse2" => iter_arity!(memchr::arch::x86_64::sse2::memchr, ns, hs, ops, new, unwrap_avail),
-        #[cfg(target_arch = "x86_64")]
+        #[cfg(all(target_arch = "x86_64", not(any(memchr_emu = "neon", memchr_emu = "simd128"))))]
         "avx2" => iter_arity!(memchr::arch::x86_64::avx2::memchr, ns, hs, ops, new, unwrap_avail),
+        #[cfg(memchr_emu = "neon")]
+        "neon" => iter_arity!(memchr::arch::aarch64::neon::memchr, ns, hs, ops, new, unwrap_avail),
+        #[cfg(memchr_emu = "simd128")]
+        "simd128" => iter_arity!(memchr::arch::wasm32::simd128::memchr, ns, hs, ops, new, unwrap_avail),
         "top" => match ns.len() {
             1 => drive(memchr::memchr_iter(ns[0], hs), ops, true),
             2 => drive(memchr::memchr2_iter(ns[0], ns[1], hs), ops, false),
@@ -499,10 +507,14 @@ macro_rules! pp_isa {
 
 pub fn pp_op(isa: &str, x: &[u8], i1: u8, i2: u8, hs: &[u8], xs: &[u8], find: bool) -> String {
     match isa {
-        #[cfg(target_arch = "x86_64")]
+        #[cfg(all(target_arch = "x86_64", not(any(memchr_emu = "neon", memchr_emu = "simd128"))))]
         "sse2" => pp_isa!(memchr::arch::x86_64::sse2::packedpair, x, i1, i2, hs, xs, find),
-        #[cfg(target_arch = "x86_64")]
+        #[cfg(all(target_arch = "x86_64", not(any(memchr_emu = "neon", memchr_emu = "simd128"))))]
         "avx2" => pp_isa!(memchr::arch::x86_64::avx2::packedpair, x, i1, i2, hs, xs, find),
+        #[cfg(memchr_emu = "neon")]
+        "neon" => pp_isa!(memchr::arch::aarch64::neon::packedpair, x, i1, i2, hs, xs, find),
+        #[cfg(memchr_emu = "simd128")]
+        "simd128" => pp_isa!(memchr::arch::wasm32::simd128::packedpair, x, i1, i2, hs, xs, find),
         _ => "BadIsa".to_string(),
     }
 }
